@@ -84,6 +84,10 @@ double potential(double prefactor_product, double sx, double sy, double sz) {
  */
 double displacement(double prefactor_product, double sx, double sy, double sz, double potential_change,
                     double system_length) {
+    if (prefactor_product == 0.0) {
+        // No interaction (e.g., a neutral unit): the potential change is never accumulated (avoids 0/0 for sy = sz = 0).
+        return INFINITY;
+    }
     double system_length_over_two = system_length / 2.0;
     double current_potential = potential(prefactor_product, sx, sy, sz);
     double potential_zero = potential(prefactor_product, 0.0, sy, sz);
